@@ -215,9 +215,9 @@ pub fn instruction_alphabet(full: bool) -> Alphabet {
 pub fn boundary_product(mode: Mode, run: &mut Run) -> Stats {
     let quick = run.quick();
     let ints: Vec<i64> = if quick {
-        vec![0, -3, i64::MIN, i64::MAX]
+        vec![0, -1, -3, i64::MIN, i64::MAX]
     } else {
-        vec![0, 1, -3, i64::MIN, i64::MAX]
+        vec![0, 1, -1, -3, i64::MIN, i64::MAX]
     };
     let floats: Vec<f64> = if quick {
         vec![-0.0, 1.5, f64::NAN]
